@@ -43,8 +43,10 @@ structure MetaEvent where
 
 /-- One committed write, in commit order.  The Spec state is just the list of these. -/
 inductive Event where
-  /-- a transaction was committed (`revertedAt = none`), with the account metadata it carried -/
-  | committed (t : TxRec) (accountMeta : Map String Metadata)
+  /-- a transaction was committed (`revertedAt = none`), with the account metadata it carried;
+      `upsertsAccounts = false` for the transaction a revert commits (that path does not run
+      `upsertTransactionAccounts`, so it never creates accounts nor lowers a first usage) -/
+  | committed (t : TxRec) (accountMeta : Map String Metadata) (upsertsAccounts : Bool)
   /-- transaction `id` was marked reverted at `at_` (its revert transaction is a separate `committed`) -/
   | reverted (id : Nat) (at_ : Int)
   /-- metadata saved / deleted on an account or a transaction -/
@@ -62,7 +64,7 @@ def markRevertedIn (txs : List TxRec) (id : Nat) (at_ : Int) : List TxRec :=
 /-- The committed transactions in commit order, with their `revertedAt` marks. -/
 def txsOf : List Event → List TxRec → List TxRec
   | [], acc => acc
-  | .committed t _ :: es, acc => txsOf es (acc ++ [t])
+  | .committed t _ _ :: es, acc => txsOf es (acc ++ [t])
   | .reverted id a :: es, acc => txsOf es (markRevertedIn acc id a)
   | .metaWrite _ :: es, acc => txsOf es acc
 
@@ -199,8 +201,8 @@ def TxRec.involves (t : TxRec) (a : String) : Bool :=
     not-yet-existing account creates it with both dates = the write's date, and leaves an
     existing account's dates alone. -/
 def accountDatesStep (a : String) (cur : Option (Int × Int)) : Event → Option (Int × Int)
-  | .committed t am =>
-    if t.involves a || am.contains a then
+  | .committed t am up =>
+    if up && (t.involves a || am.contains a) then
       match cur with
       | none => some (t.timestamp, t.insertedAt)
       | some (fu, ins) => some (if t.timestamp < fu then t.timestamp else fu, ins)
@@ -228,7 +230,7 @@ def applyChange (m : Metadata) : MetaChange → Metadata
   | .delete key => m.erase key
 
 def metaStep (target : Target) (t : Option Int) (m : Metadata) : Event → Metadata
-  | .committed tx am =>
+  | .committed tx am _ =>
     let inTime := match t with | none => true | some t => decide (tx.insertedAt ≤ t)
     if !inTime then m else
     match target with
